@@ -51,7 +51,7 @@ def nontrivial(world):
 
 
 def run_shard(ctx):
-    n = 60 if ctx.tier == 'quick' else 6000
+    n = 160 if ctx.tier == 'quick' else 8000
     ctx.set_budget(75 if ctx.tier == 'quick' else 1100)
     run_histories(ctx, PROP, strategy(), checkers, nontrivial, n)
 
